@@ -24,22 +24,19 @@ package main
 //@     invariant #same c == c0 && dash == -1
 //@     invariant #C10.none-so-far forall i int :: 0 <= i && i <= rangeindex ==> argsSlice(ctxArgs(c))[i] != "--"
 
-// ---- C14: the CLI shuts the contexts down whether or not the target failed
+// ---- C14: the CLI shuts the contexts down once, after the last target, whether or not a target failed:
+// the helpers that run one target never call Finish, the three actions call it exactly once on exit
 //@ func runTask
 //@   requires t != nil && taskRunner != nil && runnerOK(taskRunner) && taskOK(t) && compiledClosed()
 //@   modifies *
-//@   ensures #C14.finish-on-every-path calls(Finish) == 1 && calls(Run) == 1
-//@   callsite Finish
-//@     requires #C14.finish-after-run returned(Run) == 1
+//@   ensures #C14.no-shutdown-between-targets calls(Finish) == 0 && calls(Run) == 1
 //@ func printSummary
 //@   requires g != nil
 //@   modifies *
 //@ func runPipeline
 //@   requires taskRunner != nil && schedulable(g)
 //@   modifies *
-//@   ensures #C14.finish-on-every-path calls(Finish) == 1 && calls(Schedule) == 1
-//@   callsite Finish
-//@     requires #C14.finish-after-run returned(Schedule) == 1
+//@   ensures #C14.no-shutdown-between-targets calls(Finish) == 0 && calls(Schedule) == 1
 // the goroutine that forwards an abort to the scheduler
 //@ func runPipeline$1
 //@   requires sd != nil && sd.taskRunner != nil
@@ -68,14 +65,19 @@ package main
 
 //@ func rootAction
 //@   ghostlocal failed bool
+//@   ghostlocal built bool
 //@   requires c != nil && cfgLoaded() && compiledClosed()
 //@   modifies *
 //@   ensures #C07.failure-is-returned failed ==> err != nil
+//@   ensures #C14.finish-once-after-the-last-target built ==> calls(Finish) == 1
+//@   callsite buildTaskRunner
+//@     ghost built = result#1 == nil
 //@   loop 1 "range targets"
 //@     invariant #same c == c0 && c != nil && taskRunner != nil && runnerOK(taskRunner) && cfgLoaded() && compiledClosed() && len(targets) > 0
 //@     invariant #C07.no-failure-so-far !failed
 //@     invariant #C10.no-dash-so-far beforeDash(targets, rangeindex + 1)
 //@   callsite runTarget
+//@     requires #C14.contexts-still-up calls(Finish) == 0
 //@     requires #C07.in-command-line-order arg0 == targets[rangeindex]
 //@     requires #C10.never-a-target-after-dash arg0 != "--" && beforeDash(targets, rangeindex)
 //@     requires #C07.nothing-after-a-failed-target !failed
@@ -84,21 +86,28 @@ package main
 //@   callsite Run
 //@     assume result#2 == nil ==> result < len(suggestions) // promptui returns the index of one of the items it was given
 //@   callsite runTask
+//@     requires #C14.contexts-still-up calls(Finish) == 0
 //@     assumepre taskOK(arg0) && arg0 != nil // the selected suggestion names a task of the loaded configuration
 //@   callsite runPipeline
+//@     requires #C14.contexts-still-up calls(Finish) == 0
 //@     assumepre schedulable(arg0) // the selected suggestion names a pipeline of the loaded configuration (C18)
 
 // `taskctl run TARGET...`: same protocol; the literal word "pipeline" is skipped
 //@ func newRunCommand$3
 //@   ghostlocal failed bool
+//@   ghostlocal present bool
 //@   requires c != nil && cfgLoaded() && compiledClosed() && taskRunner != nil && runnerOK(taskRunner)
 //@   modifies *
 //@   ensures #C07.failure-is-returned failed ==> err != nil
+//@   ensures #C14.finish-once-after-the-last-target present ==> calls(Finish) == 1
+//@   callsite Present
+//@     ghost present = result
 //@   loop 1 "range c.Args().Slice()"
 //@     invariant #same c == c0 && c != nil && taskRunner != nil && runnerOK(taskRunner) && cfgLoaded() && compiledClosed()
 //@     invariant #C07.no-failure-so-far !failed
 //@     invariant #C10.no-dash-so-far beforeDash(argsSlice(ctxArgs(c)), rangeindex + 1)
 //@   callsite runTarget
+//@     requires #C14.contexts-still-up calls(Finish) == 0
 //@     requires #C07.in-command-line-order arg0 == argsSlice(ctxArgs(c))[rangeindex]
 //@     requires #C10.never-a-target-after-dash arg0 != "--" && beforeDash(argsSlice(ctxArgs(c)), rangeindex)
 //@     requires #C07.nothing-after-a-failed-target !failed
@@ -111,11 +120,13 @@ package main
 //@   requires c != nil && cfgLoaded() && compiledClosed() && taskRunner != nil && runnerOK(taskRunner)
 //@   modifies *
 //@   ensures #C07.failure-is-returned failed ==> result != nil
+//@   ensures #C14.finish-once-after-the-last-target calls(Finish) == 1
 //@   loop 1 "range c.Args().Slice()"
 //@     invariant #same c == c0 && c != nil && taskRunner != nil && runnerOK(taskRunner) && cfgLoaded() && compiledClosed()
 //@     invariant #C07.no-failure-so-far !failed
 //@     invariant #C10.no-dash-so-far beforeDash(argsSlice(ctxArgs(c)), rangeindex + 1)
 //@   callsite runTask
+//@     requires #C14.contexts-still-up calls(Finish) == 0
 //@     requires #C10.never-a-target-after-dash beforeDash(argsSlice(ctxArgs(c)), rangeindex + 1)
 //@     requires #C07.nothing-after-a-failed-target !failed
 //@     assumepre taskOK(arg0) // tasks of the loaded configuration have Env and Variables (buildTask)
